@@ -131,6 +131,36 @@ def c15_ts_collision(ftype="string", fname="ts"):
     return {"violates": not ok, "detail": None if ok else f"the expansion for 'created' holds {fname}={got!r}, the original record holds {own!r}"}
 
 
+def c15_grouped_view():
+    from flow.record import GroupedRecord, RecordDescriptor, extend_record
+
+    a = RecordDescriptor("c15/ma", [("string", "x"), ("varint", "n")])(x="old", n=1)
+    g = GroupedRecord("c15/grp", [a, RecordDescriptor("c15/mb", [("string", "y")])(y="why")])
+    first = g.x
+    a.x = "new"
+    second, asd, ext = g.x, g._asdict()["x"], extend_record(g, []).x
+    g.x = "through the view"
+    got = (first, second, asd, ext, a.x, g.x)
+    ok = got == ("old", "new", "new", "new", "through the view", "through the view")
+    return {"violates": not ok, "detail": None if ok else f"g.x before / after the member was assigned / in _asdict() / in extend_record(g) / member after g.x = ... / g.x: {got}"}
+
+
+def c15_colliding():
+    from flow.record import RecordDescriptor, extend_record
+    from flow.record.stream import RecordFieldRewriter
+
+    A = RecordDescriptor("c15/col", [("wstring", "x")])
+    B = RecordDescriptor("c15/col", [("string", "xw")])
+    z = RecordDescriptor("c15/z", [("varint", "z")])(z=1)
+    e1, e2 = extend_record(A(x="1"), [z]), extend_record(B(xw="2"), [z])
+    rw = RecordFieldRewriter(fields=["x", "xw"])
+    p1, p2 = rw.rewrite(A(x="1")), rw.rewrite(B(xw="2"))
+    f = lambda r: [tuple(t) for t in r._desc.get_field_tuples()]
+    got = (f(e1), f(e2), getattr(e2, "xw", None), f(p1), f(p2))
+    ok = got == ([("wstring", "x"), ("varint", "z")], [("string", "xw"), ("varint", "z")], "2", [("wstring", "x")], [("string", "xw")])
+    return {"violates": not ok, "detail": None if ok else f"extended / projected descriptors {got}"}
+
+
 def c15_grouped_replace(named=None):
     from flow.record import GroupedRecord, RecordDescriptor
 
@@ -326,4 +356,4 @@ def c15_sweep(seed=0, n=300):
     return {"violates": False, "cases": cases}
 
 
-CALLS = {"c15_rewrite_history": c15_rewrite_history, "c15_extend": c15_extend, "c15_timestamps": c15_timestamps, "c15_grouped_replace": c15_grouped_replace, "c15_grouped_collision": c15_grouped_collision, "c15_ts_collision": c15_ts_collision, "c15_ts_unset": c15_ts_unset, "c15_grouped": c15_grouped, "c15_rewrite": c15_rewrite, "c15_sweep": c15_sweep}
+CALLS = {"c15_rewrite_history": c15_rewrite_history, "c15_extend": c15_extend, "c15_timestamps": c15_timestamps, "c15_grouped_view": c15_grouped_view, "c15_colliding": c15_colliding, "c15_grouped_replace": c15_grouped_replace, "c15_grouped_collision": c15_grouped_collision, "c15_ts_collision": c15_ts_collision, "c15_ts_unset": c15_ts_unset, "c15_grouped": c15_grouped, "c15_rewrite": c15_rewrite, "c15_sweep": c15_sweep}
